@@ -5,3 +5,7 @@ Local Open Scope Z_scope.
 (* value of a closed constant expression per the specification; -1 tag when undefined *)
 Definition spec_value (e : exp) : Z * Z :=
   match aeval (fun _ => None) e with Some v => (0, v) | None => (1, 0) end.
+
+(* the specification's value as a plain Z for the harness; 2^200 when the expression has no value (division by zero) *)
+Definition spec_value_z (e : exp) : Z :=
+  match aeval (fun _ => None) e with Some v => v | None => 2 ^ 200 end.
